@@ -124,7 +124,7 @@ def processChunk {μ : Type} (ops : ModOps μ α) (dtFrame : α) (frames : Nat)
 
 /-- mirrors: renderer.rs::Renderer::process — the frame counts of the internal chunks of one callback
     (`out.chunks_mut(internal_buffer_size * channels)`); `none` = `chunks_mut(0)` panics. -/
-def chunkSizes (frames ibs : Nat) : Option (List Nat) :=
+def modChunkSizes (frames ibs : Nat) : Option (List Nat) :=
   if ibs = 0 then none
   else some ((List.replicate (frames / ibs) ibs) ++ (if frames % ibs = 0 then [] else [frames % ibs]))
 
